@@ -26,8 +26,9 @@ READY = {
     "OHVerif.Props.C06", "OHVerif.Props.C07", "OHVerif.Props.C08",
     "OHVerif.Lemmas.VecBackend", "OHVerif.Lemmas.Kahn",
     "OHVerif.Props.C01", "OHVerif.Props.C02", "OHVerif.Props.C05",
-    "OHVerif.Props.C09", "OHVerif.Props.C11", "OHVerif.Props.C15", "OHVerif.Props.C17Acyclic",
+    "OHVerif.Props.C09", "OHVerif.Props.C11", "OHVerif.Props.C15",
     "OHVerif.Props.C12", "OHVerif.Props.C13", "OHVerif.Props.C14", "OHVerif.Props.C19",
+    "OHVerif.Props.C04", "OHVerif.Props.C10", "OHVerif.Props.C17", "OHVerif.Props.C18",
 }
 
 def _mods(*names):
@@ -54,7 +55,7 @@ PROPS = {
     "C14": dict(modules=_mods("OHVerif.Props.C14"), groups=[("optic", 1500)], deps=[("dynfunctor", 300), ("eval", 300)]),
     "C15": dict(modules=_mods("OHVerif.Props.C15", "OHVerif.Lemmas.Kahn"), groups=[("graph", 3000)], deps=[("ic", 400), ("prim", 300)]),
     "C16": dict(modules=_mods("OHVerif.Props.C16"), groups=[("eval", 3000)], deps=[("graph", 600)]),
-    "C17": dict(modules=_mods("OHVerif.Props.C17", "OHVerif.Props.C17Acyclic"), groups=[("oh", 2000), ("hg", 1500), ("graph", 800)], deps=[("prim", 300)], release=True),
+    "C17": dict(modules=_mods("OHVerif.Props.C17"), groups=[("oh", 2000), ("hg", 1500), ("graph", 800)], deps=[("prim", 300)], release=True),
     "C18": dict(modules=_mods("OHVerif.Props.C18"), groups=[("graph", 3000)], deps=[("ic", 300)]),
     "C19": dict(modules=_mods("OHVerif.Props.C19"), groups=[("var", 2500)], deps=[("dynfunctor", 300), ("lax.edit", 300)]),
     "C20": dict(modules=_mods("OHVerif.Props.C20"),
